@@ -395,5 +395,357 @@ theorem agreed_pass (s : Net) (M : List Nat) (h : Nat) (ag : Agreed s M h) :
           · intro hc; exact absurd hc c1
           · intro hc; exact absurd hc c2
 
+
+/-! ### Ascending rotation -/
+
+/-- `k` passes in an agreeing ring: the token goes from the `i`-th member to the `i+1`-st, … ; the
+telegrams on the bus are exactly these passes; agreement is kept throughout. -/
+theorem agreed_rotate (M : List Nat) (k : Nat) : ∀ (s : Net) (i : Nat), Agreed s M (nth M i) →
+    Agreed (rotate s (nth M i) k).1 M (nth M (i + k)) ∧ (rotate s (nth M i) k).2.1 = nth M (i + k) ∧
+    (rotate s (nth M i) k).2.2 = (List.range k).map (fun j => (nth M (i + j), nth M (i + j + 1))) := by
+  induction k with
+  | zero => intro s i ag; exact ⟨ag, rfl, rfl⟩
+  | succ k ih =>
+    intro s i ag
+    have hns : nsOf s (nth M i) = nth M (i + 1) := by
+      rw [agreed_nsOf s M _ ag]; exact cycSucc_nth M ag.ring i
+    have ag' : Agreed (pass s (nth M i)) M (nth M (i + 1)) := by
+      have := agreed_pass s M _ ag
+      rwa [cycSucc_nth M ag.ring i] at this
+    have := ih (pass s (nth M i)) (i + 1) ag'
+    simp only [rotate, hns]
+    have e : i + 1 + k = i + (k + 1) := by omega
+    rw [e] at this
+    refine ⟨this.1, this.2.1, ?_⟩
+    rw [this.2.2, List.range_succ_eq_map, List.map_cons, List.map_map]
+    congr 1
+    apply List.map_congr_left
+    intro j _
+    simp only [Function.comp, Nat.succ_eq_add_one]
+    have e1 : i + 1 + j = i + (j + 1) := by omega
+    rw [e1]
+
+
+/-! ### Admission of a listener by the GAP sweep -/
+
+/-- `a` is a listener (not in the ring) that has learned the ring `M` and is ready. -/
+structure ReadyListener (s : Net) (M : List Nat) (a : Nat) : Prop where
+  notMem : a ∉ M
+  node : ∃ na, s.node a = some na ∧ na.mode = .listen ∧ ViewOk M a na.ring
+
+/-- What stays fixed while the token circulates and `h` sweeps its GAP: the ring agrees on `M`
+(holder `hd`), `a` is a ready listener, the addresses in `absent` are not on the bus, the GAP cursor
+of `h` is `g`, HSA is `H`. -/
+structure SweepInv (s : Net) (M : List Nat) (hd h a : Nat) (absent : List Nat) (g : Option Nat) (H : Nat) : Prop where
+  agreed : Agreed s M hd
+  listener : ReadyListener s M a
+  absent : ∀ b ∈ absent, s.node b = none
+  gap : ∀ nh, s.node h = some nh → nh.gap = g
+  hsa : s.hsa = H
+
+theorem pass_hsa (s : Net) (h : Nat) : (pass s h).hsa = s.hsa := by
+  unfold pass; split
+  · split <;> rfl
+  · rfl
+
+theorem pass_none (s : Net) (h b : Nat) (e : s.node b = none) : (pass s h).node b = none := by
+  unfold pass; split
+  · split
+    · rw [passTo_node, e]; rfl
+    · exact e
+  · exact e
+
+theorem sweepInv_pass (s : Net) (M : List Nat) (hd h a : Nat) (absent : List Nat) (g : Option Nat) (H : Nat)
+    (inv : SweepInv s M hd h a absent g H) : SweepInv (pass s hd) M (cycSucc hd M) h a absent g H := by
+  have node' := agreed_pass_node s M hd inv.agreed
+  refine ⟨agreed_pass s M hd inv.agreed, ⟨inv.listener.notMem, ?_⟩, fun b hb => pass_none s hd b (inv.absent b hb),
+    fun nh' e' => ?_, (pass_hsa s hd).trans inv.hsa⟩
+  · obtain ⟨na, ea, hl, v⟩ := inv.listener.node
+    have c1 : a ≠ hd := fun e => inv.listener.notMem (e ▸ inv.agreed.hmem)
+    have c2 : a ≠ cycSucc hd M := fun e => inv.listener.notMem (e ▸ cycSucc_mem hd M inv.agreed.hmem)
+    refine ⟨_, node' a na ea, ?_, ?_⟩
+    · rw [if_neg c1, if_neg c2]; exact hl
+    · rw [if_neg c1, if_neg c2]
+      exact viewOk_witness M inv.agreed.ring a hd na.ring inv.agreed.hmem v
+  · cases e : s.node h with
+    | none => rw [pass_none s hd h e] at e'; cases e'
+    | some nh =>
+      rw [node' h nh e] at e'
+      injection e' with e'
+      subst e'
+      have := inv.gap nh e
+      split
+      · exact this
+      · split <;> exact this
+
+theorem sweepInv_rotate (M : List Nat) (h a : Nat) (absent : List Nat) (g : Option Nat) (H : Nat) (k : Nat) :
+    ∀ (s : Net) (i : Nat), SweepInv s M (nth M i) h a absent g H →
+      SweepInv (rotate s (nth M i) k).1 M (nth M (i + k)) h a absent g H := by
+  induction k with
+  | zero => intro s i inv; exact inv
+  | succ k ih =>
+    intro s i inv
+    have hns : nsOf s (nth M i) = nth M (i + 1) := by
+      rw [agreed_nsOf s M _ inv.agreed]; exact cycSucc_nth M inv.agreed.ring i
+    have inv' := sweepInv_pass s M _ h a absent g H inv
+    rw [cycSucc_nth M inv.agreed.ring i] at inv'
+    have := ih (pass s (nth M i)) (i + 1) inv'
+    simp only [rotate, hns]
+    have e : i + 1 + k = i + (k + 1) := by omega
+    rwa [e] at this
+
+theorem nth_add_length (M : List Nat) (i : Nat) : nth M (i + M.length) = nth M i := by
+  unfold nth; rw [Nat.add_mod_right]
+
+/-- Agreement only looks at mode, ring view and pending predecessor of every station. -/
+theorem agreed_congr (s s' : Net) (M : List Nat) (h : Nat) (ag : Agreed s M h)
+    (hc : ∀ x, (s'.node x = none ∧ s.node x = none) ∨
+      ∃ nx nx', s.node x = some nx ∧ s'.node x = some nx' ∧ nx'.mode = nx.mode ∧ nx'.ring = nx.ring ∧ nx'.pend = nx.pend) :
+    Agreed s' M h := by
+  refine ⟨ag.ring, ag.hmem, fun x => ?_, fun x nx' ex' hm' => ?_, fun x nx' ex' => ?_⟩
+  · rw [ag.members x]
+    rcases hc x with ⟨e', e⟩ | ⟨nx, nx', e, e', hm, _, _⟩
+    · rw [e, e']
+    · rw [e, e']
+      constructor
+      · rintro ⟨n, en, hn⟩; cases en; exact ⟨nx', rfl, hm ▸ hn⟩
+      · rintro ⟨n, en, hn⟩; cases en; exact ⟨nx, rfl, hm ▸ hn⟩
+  · rcases hc x with ⟨e', e⟩ | ⟨nx, nx'', e, e', hm, hr, hp⟩
+    · rw [e'] at ex'; cases ex'
+    · rw [e'] at ex'; cases ex'
+      have := ag.view x nx e (hm ▸ hm')
+      rw [hr, hp]; exact this
+  · rcases hc x with ⟨e', e⟩ | ⟨nx, nx'', e, e', hm, hr, hp⟩
+    · rw [e'] at ex'; cases ex'
+    · rw [e'] at ex'; cases ex'
+      rw [hm]; exact ag.holder x nx e
+
+/-- `InGap` is `Between` below HSA. -/
+theorem inGap_between (ts ns hsa a : Nat) : InGap ts ns hsa a ↔ a < hsa ∧ Between ts ns a := by
+  unfold InGap Between
+  constructor
+  · rintro ⟨h1, h2, h3⟩; exact ⟨h1, h2, h3⟩
+  · rintro ⟨h1, h2, h3⟩; exact ⟨h1, h2, h3⟩
+
+/-- A GAP poll of an address where no station is: only the cursor of `h` moves. -/
+theorem sweepInv_gapPoll_absent (s : Net) (M : List Nat) (h a b : Nat) (absent : List Nat) (g : Option Nat) (H : Nat)
+    (inv : SweepInv s M h h a absent g H) (hb : s.node b = none)
+    (hp : nextGapPoll h (cycSucc h M) H (g.getD h) = .poll b) :
+    SweepInv (gapPoll s h) M h h a absent (some b) H := by
+  obtain ⟨nh, e, hmode, hns⟩ := agreed_holder_node s M h inv.agreed
+  have hg := inv.gap nh e
+  have hne : b ≠ h := fun c => by rw [c, e] at hb; cases hb
+  have hresp : responds s h b = false := by unfold responds; rw [hb]
+  have hnode : ∀ x, (gapPoll s h).node x = (s.node x).map (gapPollNode h b false x) := by
+    intro x
+    unfold gapPoll
+    rw [e]
+    simp only [hmode, if_true, hns, inv.hsa, hg, hp, hresp]
+  have hother : ∀ x nx, x ≠ h → s.node x = some nx → (gapPoll s h).node x = some nx := by
+    intro x nx hx ex
+    rw [hnode, ex]
+    simp only [Option.map_some, Option.some.injEq]
+    unfold gapPollNode
+    rw [if_neg hx]
+    have : ¬ (x = b ∧ nx.mode = .listen ∧ nx.ring.readyForRing = true) := fun c => by
+      rw [c.1, hb] at ex; cases ex
+    rw [if_neg this]
+  have hh : (gapPoll s h).node h = some { nh with gap := some b } := by
+    rw [hnode, e]
+    simp only [Option.map_some, Option.some.injEq]
+    unfold gapPollNode
+    rw [if_pos rfl]; rfl
+  have hhsa : (gapPoll s h).hsa = s.hsa := by
+    unfold gapPoll
+    rw [e]
+    simp only [hmode, if_true, hns, inv.hsa, hg, hp]
+  refine ⟨?_, ⟨inv.listener.notMem, ?_⟩, fun c hc => ?_, fun nh' e' => ?_, hhsa.trans inv.hsa⟩
+  · apply agreed_congr s _ M h inv.agreed
+    intro x
+    by_cases hx : x = h
+    · subst hx
+      exact Or.inr ⟨nh, _, e, hh, rfl, rfl, rfl⟩
+    · cases ex : s.node x with
+      | none => left; rw [hnode, ex]; exact ⟨rfl, rfl⟩
+      | some nx => exact Or.inr ⟨nx, nx, rfl, hother x nx hx ex, rfl, rfl, rfl⟩
+  · obtain ⟨na, ea, hl, v⟩ := inv.listener.node
+    have c1 : a ≠ h := fun c => inv.listener.notMem (c ▸ inv.agreed.hmem)
+    exact ⟨na, hother a na c1 ea, hl, v⟩
+  · rw [hnode, inv.absent c hc]; rfl
+  · rw [hh] at e'; cases e'; rfl
+
+
+/-- The schedule of a GAP sweep: `k` token visits at `h`; on each visit `h` polls one GAP address,
+then the token goes once round the ring (`len` passes) and is back at `h`. -/
+def visits (s : Net) (h len : Nat) : Nat → Net
+  | 0 => s
+  | k + 1 => visits (rotate (gapPoll s h) h len).1 h len k
+
+theorem sweepInv_absent_mono (s : Net) (M : List Nat) (hd h a : Nat) (l l' : List Nat) (g : Option Nat) (H : Nat)
+    (inv : SweepInv s M hd h a l g H) (hsub : ∀ b ∈ l', b ∈ l) : SweepInv s M hd h a l' g H :=
+  ⟨inv.agreed, inv.listener, fun b hb => inv.absent b (hsub b hb), inv.gap, inv.hsa⟩
+
+/-- The poll that finds the ready listener `a` in the GAP of its predecessor `h`, followed by `h`'s
+token pass: `h` adopts `a` as NS (`set_next_station`), `a` enters the ring (ActiveIdle) and takes the
+token from its PS. -/
+theorem gapPoll_admits (s : Net) (M : List Nat) (h a : Nat) (absent : List Nat) (g : Option Nat) (H : Nat)
+    (inv : SweepInv s M h h a absent g H) (hbt : Between h (cycSucc h M) a) (ha : a < 128)
+    (hp : nextGapPoll h (cycSucc h M) H (g.getD h) = .poll a) :
+    (∃ nh, (pass (gapPoll s h) h).node h = some nh ∧ nh.mode = .idle ∧ nh.ring.ns = a) ∧
+    (∃ na, (pass (gapPoll s h) h).node a = some na ∧ na.mode = .hold ∧ ViewOk M a na.ring) ∧
+    (∃ nh, (gapPoll s h).node h = some nh ∧ nh.mode = .hold ∧ nh.ring.ns = a) := by
+  obtain ⟨nh, e, hmode, hns⟩ := agreed_holder_node s M h inv.agreed
+  have hv := (inv.agreed.view h nh e (by rw [hmode]; simp)).1
+  have hg := inv.gap nh e
+  obtain ⟨na, ea, hl, v⟩ := inv.listener.node
+  have hne : a ≠ h := fun c => inv.listener.notMem (c ▸ inv.agreed.hmem)
+  have hps : na.ring.ps = h := by
+    rw [(viewOk_ns M inv.agreed.ring a na.ring v).2]
+    exact cycPred_of_between h a M inv.agreed.hmem hbt
+  have hready : na.ring.readyForRing = true := by simp [readyForRing, v.valid]
+  have hresp : responds s h a = true := by
+    unfold responds; rw [ea]; simp [hl, hready, hps]
+  have hnode : ∀ x, (gapPoll s h).node x = (s.node x).map (gapPollNode h a true x) := by
+    intro x
+    unfold gapPoll
+    rw [e]
+    simp only [hmode, if_true, hns, inv.hsa, hg, hp, hresp]
+  obtain ⟨r', hr'⟩ : ∃ r', nh.ring.setNextStation a = some r' := by
+    unfold setNextStation; rw [if_neg (by omega)]; exact ⟨_, rfl⟩
+  have hns' : r'.ns = a := setNextStation_ns nh.ring r' a hr' (by rw [hv.ts]; exact hne)
+  have hh : (gapPoll s h).node h = some { nh with gap := some a, ring := r' } := by
+    rw [hnode, e]
+    simp only [Option.map_some, Option.some.injEq]
+    unfold gapPollNode
+    rw [if_pos rfl, hr']; rfl
+  have haa : (gapPoll s h).node a = some { na with mode := .idle, pend := none } := by
+    rw [hnode, ea]
+    simp only [Option.map_some, Option.some.injEq]
+    unfold gapPollNode
+    rw [if_neg hne, if_pos ⟨rfl, hl, hready⟩]
+  have hacc : accepted (gapPoll s h) h a = true := by
+    unfold accepted; rw [haa]; unfold accepts; simp [hne, hps]
+  refine ⟨?_, ?_, ⟨_, hh, hmode, hns'⟩⟩
+  · rw [pass_eq _ h _ hh hmode]
+    simp only [hns']
+    rw [passTo_node, hh, hacc]
+    refine ⟨_, rfl, ?_, ?_⟩
+    · unfold passNode; rw [if_pos rfl]; rfl
+    · unfold passNode; rw [if_pos rfl]
+      show (r'.witness h a).ns = a
+      have hnb : Nbr (r'.witness h a) := witness_nbr r' h a (setNextStation_nbr nh.ring r' a hr')
+      have hr'v : r'.las = .valid := by
+        have := hr'
+        unfold setNextStation at this
+        rw [if_neg (by omega)] at this
+        injection this with this
+        rw [← this, (updateLas_las _ _ _).1]; exact hv.valid
+      have hts' : r'.ts = h := (setNextStation_ts nh.ring r' a hr').trans hv.ts
+      have hh125 : h ≤ 125 := inv.agreed.ring.bound h inv.agreed.hmem
+      by_cases ha125 : a ≤ 125
+      · rw [witness_valid r' h a hr'v hh125 ha125]
+        -- `a` stays entered and the range behind `h` stays clear
+        have hnb0 := setNextStation_nbr nh.ring r' a hr'
+        have hact : r'.isActive a = true := by
+          have hs := (isCycSucc_iff _ _ _).mpr hnb0.1
+          rw [hns', hts'] at hs
+          have m := mem_activeList r'
+          by_cases h1 : ∃ b ∈ r'.activeList, h < b
+          · exact (m a).mp (hs.above h1).1
+          · have hall : ∀ b ∈ r'.activeList, b ≤ h := fun b hb => by
+              have : ¬ h < b := fun hlt => h1 ⟨b, hb, hlt⟩
+              omega
+            by_cases h2 : ∃ b, b ∈ r'.activeList
+            · exact (m a).mp (hs.wrap hall h2).1
+            · exact absurd (hs.alone fun b hb => h2 ⟨b, hb⟩) hne
+        apply nbr_ns_of_gapfree _ a (updateLas_nbr r' h a)
+        · rw [updateLas_active r' h a a ha]
+          unfold passBit
+          rw [if_neg hne]
+          have : inPassGap h a a = false := by
+            cases hc : inPassGap h a a with
+            | false => rfl
+            | true => rw [inPassGap_arith] at hc; omega
+          rw [this]; simpa using hact
+        · rw [(updateLas_las r' h a).2, hts']; exact hne
+        · intro x hx
+          rw [(updateLas_las r' h a).2, hts'] at hx
+          by_cases hx128 : x < 128
+          · rw [updateLas_active r' h a x hx128]
+            unfold passBit
+            rw [if_neg hx.1, if_pos (between_inPassGap _ _ _ hx)]
+          · unfold isActive; rw [dif_neg hx128]
+      · rw [witness_ignores_invalid r' h a (Or.inr (by omega))]; exact hns'
+  · rw [pass_eq _ h _ hh hmode]
+    simp only [hns']
+    rw [passTo_node, haa, hacc]
+    refine ⟨_, rfl, ?_, ?_⟩
+    · unfold passNode; rw [if_neg hne, if_pos rfl]; simp only; rw [if_pos hps]
+    · unfold passNode; rw [if_neg hne, if_pos rfl]; simp only; rw [if_pos hps]; exact v
+
+
+theorem poll_inGap (ts ns hsa cur a : Nat) (hh : 0 < hsa) (hh2 : hsa ≤ 126) (hc : cur < hsa)
+    (h : nextGapPoll ts ns hsa cur = .poll a) : InGap ts ns hsa a := by
+  rw [nextGapPoll_eq ts ns hsa cur hh hh2 hc] at h
+  split at h
+  · cases h; assumption
+  · cases h
+
+/-- **Admission within one sweep.**  If the sweep of `h`'s GAP (as `sweepFrom` = iterated real
+`next_gap_poll`) from the current cursor reaches the ready listener `a` after the addresses `pre`,
+and no station is present at the addresses `pre`, then after `|pre|` token visits at `h` (one poll
+each, one full rotation in between) the next poll finds `a`: `h` adopts it as NS and `h`'s token
+pass hands it the token. -/
+theorem listener_admitted_aux (M : List Nat) (h a H : Nat) (hH : H ≤ 126) (hh : h < H) (post : List Nat) :
+    ∀ (pre : List Nat) (fuel : Nat) (s : Net) (g : Option Nat), SweepInv s M h h a pre g H → g.getD h < H →
+      sweepFrom h (cycSucc h M) H fuel (g.getD h) = pre ++ a :: post →
+      (∃ nh, (pass (gapPoll (visits s h M.length pre.length) h) h).node h = some nh ∧ nh.mode = .idle ∧ nh.ring.ns = a) ∧
+      (∃ na, (pass (gapPoll (visits s h M.length pre.length) h) h).node a = some na ∧ na.mode = .hold ∧
+        ViewOk M a na.ring) ∧
+      (∃ nh, (gapPoll (visits s h M.length pre.length) h).node h = some nh ∧ nh.mode = .hold ∧ nh.ring.ns = a) := by
+  intro pre
+  induction pre with
+  | nil =>
+    intro fuel s g inv hcur hsw
+    cases fuel with
+    | zero => simp [sweepFrom] at hsw
+    | succ f =>
+      unfold sweepFrom at hsw
+      cases hn : nextGapPoll h (cycSucc h M) H (g.getD h) with
+      | poll x =>
+        rw [hn] at hsw
+        simp only [List.nil_append, List.cons.injEq] at hsw
+        rw [hsw.1] at hn
+        have hin := poll_inGap _ _ _ _ _ (by omega) hH hcur hn
+        have hb := (inGap_between _ _ _ _).mp hin
+        exact gapPoll_admits s M h a [] g H inv hb.2 (by omega) hn
+      | waiting => rw [hn] at hsw; simp at hsw
+      | panic => rw [hn] at hsw; simp at hsw
+  | cons b pre' ih =>
+    intro fuel s g inv hcur hsw
+    cases fuel with
+    | zero => simp [sweepFrom] at hsw
+    | succ f =>
+      unfold sweepFrom at hsw
+      cases hn : nextGapPoll h (cycSucc h M) H (g.getD h) with
+      | poll x =>
+        rw [hn] at hsw
+        simp only [List.cons_append, List.cons.injEq] at hsw
+        rw [hsw.1] at hn
+        have hin := poll_inGap _ _ _ _ _ (by omega) hH hcur hn
+        have hbabs : s.node b = none := inv.absent b (by simp)
+        have inv1 := sweepInv_gapPoll_absent s M h a b (b :: pre') g H inv hbabs hn
+        obtain ⟨i, _, hi⟩ := mem_nth M h inv.agreed.hmem
+        rw [← hi] at inv1
+        have inv2 := sweepInv_rotate M (nth M i) a (b :: pre') (some b) H M.length _ i inv1
+        rw [nth_add_length, hi] at inv2
+        have inv3 := sweepInv_absent_mono _ M h h a (b :: pre') pre' (some b) H inv2 (fun c hc => by simp [hc])
+        have hsw2 : sweepFrom h (cycSucc h M) H f ((some b).getD h) = pre' ++ a :: post := by
+          rw [← hsw.2, hsw.1]; rfl
+        have := ih f _ (some b) inv3 (by simpa using hin.1) hsw2
+        simpa [visits] using this
+      | waiting => rw [hn] at hsw; simp at hsw
+      | panic => rw [hn] at hsw; simp at hsw
+
 end AbstractRing
 end PV
